@@ -425,6 +425,9 @@ def _same_func(a, b):
 
 def values_equal(a: V, b: V):
     """z3 Bool for Python ==  (structural for the modelled types)."""
+    r = _class_cmp(a, b)
+    if r is not None:
+        return r
     if isinstance(a, VUnion):
         return simp(z3.Or(*[z3.And(g, values_equal(x, b)) for g, x in a.alts]))
     if isinstance(b, VUnion):
